@@ -738,7 +738,10 @@ impl<T: GseDecapMemory, C: CrcCalculator, MHEM: MandatoryHeaderExtensionManager>
 
         let pdu_buffer_len = pdu_buffer.len();
 
-        if pdu_buffer_len < calculed_pdu_len {
+        // the reassembled length has to stay within the 16 bits of the total length
+        if pdu_buffer_len < calculed_pdu_len
+            || decap_context.pdu_len as usize + calculed_pdu_len > u16::MAX as usize
+        {
             if let Err(err) = self.memory.provision_storage(pdu) {
                 return Err((DecapError::ErrorMemory(err), pkt_len));
             }
@@ -820,8 +823,8 @@ impl<T: GseDecapMemory, C: CrcCalculator, MHEM: MandatoryHeaderExtensionManager>
             )
         };
 
-        let total_len_received = (pdu_len + PROTOCOL_LEN + first_label_len) as u16;
-        if decap_context.total_len != total_len_received {
+        let total_len_received = pdu_len + PROTOCOL_LEN + first_label_len;
+        if decap_context.total_len as usize != total_len_received {
             if let Err(err) = self.memory.provision_storage(pdu) {
                 return Err((DecapError::ErrorMemory(err), pkt_len));
             }
